@@ -230,6 +230,9 @@ def run_case(c, d):
                         ({'NSIG': 2, 'threshold': 0}, 'NSIG-and-threshold-together'),
                         ({'NSIG': 0, 'threshold': 0.0}, 'NSIG-and-threshold-together'),
                         ({'NSIG': -1}, 'negative-NSIG'), ({'NSIG': P}, 'NSIG-equal-P'),
+                        ({'threshold': 0.5}, 'threshold-leaving-no-noise-subspace'),
+                        ({'threshold': 0}, 'threshold-leaving-no-noise-subspace'),
+                        ({'NSIG': np.int64(P)}, 'NSIG-equal-P'), ({'NSIG': np.int64(-2)}, 'negative-NSIG'),
                         ({'NSIG': P + 3}, 'NSIG-above-P')):
             for fn in ('music', 'ev', 'eigen'):
                 try:
